@@ -291,6 +291,87 @@ theorem index_history_immutable (K IK : Bytes → Prop) (hK : WFKeys K) (hIK : W
 /-- the real index keys (32-byte hashes) satisfy the hypotheses -/
 theorem index_keys_wf : WFKeys IdxKey ∧ ∀ h, PfxOK IdxKey (txHeightKey h) := ⟨idxKey_wf, idxKey_pfx⟩
 
+/-! ## iteration through the block store's indexer sees the block's own pending index writes -/
+
+/-- how the indexer transactions are built, read off `store/store.go`: the block-level indexer
+(`NewStoreWithDB`, `Reset`) and the per-transaction nested one (`NewTxn`) with `sort = true` — their pending
+operations are in the sorted tree the iterators merge — and the read-only one (`NewReadOnly`, never written)
+with `sort = false` -/
+def idxSortOfSource : Bool :=
+  decide (Gen.Store.indexerTxnSort = [("NewStoreWithDB", "true"), ("NewReadOnly", "false"), ("NewTxn", "true"), ("Reset", "true")])
+
+theorem indexer_txns_sorted : idxSortOfSource = true := by decide
+
+theorem IState.apply_idxSort (mode : CacheKeying) (s : IState) (op : IOp) : (s.apply mode op).idxSort = s.idxSort := by
+  cases op with
+  | store o =>
+    cases o <;> simp only [IState.apply, IState.commit, IState.rollback] <;> repeat (first | rfl | split)
+  | indexBlock h hash txs => rfl
+  | indexQC h bh => rfl
+  | reset => simp only [IState.apply, IState.reset]; split <;> rfl
+  | purgeCache => rfl
+  | getBlock vw h hdr => rfl
+  | getQC vw h => rfl
+
+theorem runIOps_idxSort (mode : CacheKeying) (ops : List IOp) : ∀ s : IState, (runIOps mode s ops).idxSort = s.idxSort := by
+  induction ops with
+  | nil => intro s; rfl
+  | cons op ops ih => intro s; exact (ih _).trans (IState.apply_idxSort mode s op)
+
+/-- **`index_own_writes_visible`** — in every reachable state, iterating the indexer of the store object (the
+block's store: what `GetTxsByHeight`, `GetAllCheckpoints`, `GetMostRecentCheckpoint`, `GetDoubleSigners`,
+`DeleteCheckpointsForChain` … run on while a block is being applied) yields *the* scan — strictly ordered,
+complete, duplicate-free — of the committed index with the block's pending index operations applied: what the
+block has indexed so far is there, what it has deleted is hidden — the same view its point reads (`getB`) have.
+Depends on `indexer_txns_sorted`: the block-level indexer transaction keeps its pending operations sorted. -/
+theorem index_own_writes_visible (K IK : Bytes → Prop) (hK : WFKeys K) (hIK : WFKeys IK) (mode : CacheKeying)
+    (ops : List IOp) (hops : ∀ op ∈ ops, IOpOK K IK op) (hb : ops.length + 1 < maxVer) (p : Bytes) (hp : PfxOK IK p) :
+    let s := runIOps mode { idxSort := idxSortOfSource } ops
+    IsScanR (applyOvR s.idxOv fun k x => Sees s.idb s.st.version (idxPrefix ++ k) x) p false (s.live.iter p) ∧
+    ∀ k, s.live.getB k = match smGet s.idxOv k with
+      | some op => (op.read).getD []
+      | none => ((VS.mk s.idb s.st.version).get (idxPrefix ++ k)).getD [] := by
+  rw [indexer_txns_sorted]
+  simp only
+  obtain ⟨m, hi⟩ := reachable_iinv K IK hK mode ops hops hb
+  have hsorted := runIOps_sorted_idxOv mode ops {} List.Pairwise.nil
+  have hsort := runIOps_idxSort mode ops {}
+  have hver : (runIOps mode {} ops).st.version ≤ maxVer := by have := hi.st.rep.ver_lt; omega
+  refine ⟨?_, fun k => rfl⟩
+  have := sorted_txn_iter_scan hIK hi.idx hver _ hver _ hsorted hi.pend p hp
+  simpa [IState.live, hsort] using this
+
+/-- a block being applied: height 1 is indexed with one transaction, not yet committed -/
+def pendingBlock : List IOp := [.indexQC 1 [0xB1], .indexBlock 1 [0xB1] [[0x71]]]
+
+/-- **were the block-level indexer transaction built with `sort = false`** (as it was), iteration through the
+store would not show the block's pending index writes although point reads do: the block's transaction is
+found by hash, and is missing from the per-height list — with `sort = true` it is listed. -/
+theorem unsorted_indexer_txn_hides_pending_writes_from_iteration :
+    (let s := runIOps .byHashKey { idxSort := false } pendingBlock
+     s.live.getTxByHash [0x71] = [0x71] ∧ s.live.txsByHeight 1 = []) ∧
+    (let s := runIOps .byHashKey { idxSort := idxSortOfSource } pendingBlock
+     s.live.getTxByHash [0x71] = [0x71] ∧ s.live.txsByHeight 1 = [[0x71]]) := by
+  rw [indexer_txns_sorted]
+  refine ⟨by decide +kernel, by decide +kernel, ?_⟩
+  generalize hs : runIOps CacheKeying.byHashKey { idxSort := true } pendingBlock = s
+  subst hs
+  have hne : (runIOps CacheKeying.byHashKey { idxSort := true } pendingBlock).live.ipend ≠ [] := by decide +kernel
+  have h1 : txnItems (runIOps CacheKeying.byHashKey { idxSort := true } pendingBlock).live.ipend (txHeightKey 1) false = [(txHeightIndexKey 1 0, TOp.set (txHashKey [0x71]))] := by
+    decide +kernel
+  have h2 : (runIOps CacheKeying.byHashKey { idxSort := true } pendingBlock).live.dbIter (txHeightKey 1) = [] := by decide +kernel
+  have hit : (runIOps CacheKeying.byHashKey { idxSort := true } pendingBlock).live.iter (txHeightKey 1) = [(txHeightIndexKey 1 0, txHashKey [0x71])] := by
+    unfold IView.iter
+    cases h : (runIOps CacheKeying.byHashKey { idxSort := true } pendingBlock).live.ipend with
+    | nil => exact absurd h hne
+    | cons e r =>
+      simp only
+      rw [← h, h1, h2]
+      simp [mergeRun]
+  unfold IView.txsByHeight
+  rw [hit]
+  decide +kernel
+
 /-! ### through the cache: full strength on the code as it stands
 
 `Disc s op` / `DiscRun K s ops` (`Proof/IndexerCache.lean`) is what the node's commit path guarantees
